@@ -349,6 +349,41 @@ def replay_elem(cases, F, mon):
                     if not views_equal(before, vec_view(v)):
                         F.add("operands_unchanged", c, "operand changed by " + uname, "unchanged", **info)
                     mon.see(r, "unary:" + uname, rule=True)
+            # the SAME vector object as both operands (v == v, v <= v, v + v, v - v ...): still the
+            # Python operation element by element, None -> None (arithmetic) / False (comparison)
+            for tag, ops in (("int", list(BIN_OPS) + list(CMP_OPS)), ("float", list(BIN_OPS) + list(CMP_OPS)),
+                             ("str", ["add", "eq", "ne", "lt", "le", "ge"]), ("bool", ["add", "eq", "le", "gt"]),
+                             ("date", ["eq", "le", "ge", "lt", "sub"])):
+                vals = operand_vals(tag, la, n_case % 3, 0)
+                vals = [None if (i + 1) in na else x for i, x in enumerate(vals)]
+                for opname in ops:
+                    is_cmp = opname in CMP_OPS
+                    fn = CMP_OPS[opname] if is_cmp else BIN_OPS[opname]
+                    try:
+                        exp = [(False if is_cmp else None) if x is None else (bool(fn(x, x)) if is_cmp else fn(x, x)) for x in vals]
+                    except Exception:      # noqa: BLE001
+                        F.skip("python scalar operation undefined for the operands")
+                        continue
+                    v = Vector(list(vals), name="S")
+                    before = vec_view(v)
+                    st, r, ex = attempt(lambda: fn(v, v))
+                    executed += 1
+                    info = {"op": opname, "tags": [tag, tag], "operands": "the same vector object twice"}
+                    if st != "ok" or not isinstance(r, Vector):
+                        F.add(("none_compare" if is_cmp else "none_handling") if na else ("compare" if is_cmp else "elementwise"), c,
+                              "raised " + type(ex).__name__ if st != "ok" else repr(r), exp, **info)
+                        continue
+                    got = list(r)
+                    if len(got) != len(exp) or [g is None for g in got] != [e is None for e in exp]:
+                        F.add("none_handling", c, got, exp, **info)
+                    elif not all(A.same_value(g, e) for g, e in zip(got, exp)):
+                        clause = ("none_compare" if any(x is None and g != e for x, g, e in zip(vals, got, exp)) else "compare") if is_cmp else "elementwise"
+                        F.add(clause, c, got, exp, **info)
+                    if not views_equal(before, vec_view(v)):
+                        F.add("operands_unchanged", c, "operand changed by " + opname, "unchanged", **info)
+                    if r is v:
+                        F.add("operands_unchanged", c, "result is the operand", "a new vector", **info)
+                    mon.see(r, "self:" + opname, rule=not is_cmp)
     return executed
 
 
@@ -846,6 +881,76 @@ def fplaws(out_path):
                 if diff and (len(diff) == 1 or perm) and fo == fa:
                     F.add("fp_order", {"values": repr(vals), "other": repr(other)}, "different contents, same fingerprint", "different")
             seen.setdefault(n, []).append((vals, fa))
+    # "a write that changes any element to an unequal value (other than pairs Python's own hash() cannot
+    # tell apart) changes the fingerprint": every pair of special values of one kind, written through every
+    # path, at first / last position; pairs with equal hash() are outside the claim and skipped
+    import math
+    from datetime import date as _d
+    inf = float("inf")
+    groups = {"float": [0.5, 2.5, -0.0, inf, -inf, float("nan"), -1.0, -2.0, 1e300, None],
+              "int": [0, 1, -1, -2, -3, 2 ** 61 - 1, 2 ** 61, 10 ** 30, None],
+              "str": ["a", "", "b", "A", " a", None],
+              "bool": [True, False, None],
+              "date": [_d(2020, 1, 1), _d(2020, 1, 2), _d(1, 1, 1), None]}
+
+    def unequal(x, y):
+        if x is None or y is None:
+            return (x is None) != (y is None)
+        if isinstance(x, float) and isinstance(y, float) and math.isnan(x) and math.isnan(y):
+            return False
+        return x != y and hash(x) != hash(y)
+    for kind, vals in groups.items():
+        filler = next(v for v in vals if v is not None)
+        for x, y in itertools.permutations(vals, 2):
+            if not unequal(x, y):
+                continue
+            for pos in (0, 2):
+                base = [filler, filler, filler]
+                base[pos] = x
+                want = list(base)
+                want[pos] = y
+                paths = {
+                    "element": lambda v: v.__setitem__(pos, y),
+                    "slice": lambda v: v.__setitem__(slice(pos, pos + 1), [y]),
+                    "mask": lambda v: v.__setitem__([i == pos for i in range(3)], y),
+                    "index-list": lambda v: v.__setitem__([pos], [y]),
+                }
+                for pname, write in paths.items():
+                    for memo in (True, False):
+                        v = Vector(list(base))
+                        fp0 = v.fingerprint() if memo else Vector(list(base)).fingerprint()
+                        st, _, e = attempt(lambda: write(v))
+                        ex += 1
+                        if st != "ok":
+                            continue
+                        case = {"kind": kind, "from": repr(x), "to": repr(y), "position": pos, "path": pname, "memoised_before": memo}
+                        if v.fingerprint() != Vector(list(want)).fingerprint():
+                            F.add("fp_value", case, "fingerprint after the write differs from a fresh vector's", "equal")
+                        if v.fingerprint() == fp0:
+                            F.add("fp_order", case, "the write did not change the fingerprint", "a different fingerprint")
+                # through a table: cell assignment, live column view, attribute replacement
+                for pname in ("cell", "view", "attribute"):
+                    t = Table({"x": list(base), "k": [1, 2, 3]})
+                    ft0 = t.fingerprint()
+                    if pname == "cell":
+                        st, _, e = attempt(lambda: t.__setitem__((pos, "x"), y))
+                    elif pname == "view":
+                        st, _, e = attempt(lambda: t["x"].__setitem__(pos, y))
+                    else:
+                        st, _, e = attempt(lambda: setattr(t, "x", list(want)))
+                    ex += 1
+                    if st != "ok":
+                        continue
+                    case = {"kind": kind, "from": repr(x), "to": repr(y), "position": pos, "path": "table " + pname}
+                    if t.fingerprint() != Table({"x": list(want), "k": [1, 2, 3]}).fingerprint():
+                        F.add("fp_value", case, "table fingerprint after the write differs from a fresh table's", "equal")
+                    if t.fingerprint() == ft0:
+                        F.add("fp_order", case, "the write did not change the table's fingerprint", "a different fingerprint")
+            # element order matters: [x, y, f] vs [y, x, f]
+            a, b = Vector([x, y, filler]), Vector([y, x, filler])
+            ex += 1
+            if a.fingerprint() == b.fingerprint():
+                F.add("fp_order", {"kind": kind, "values": repr([x, y, filler])}, "two unequal elements swapped, same fingerprint", "different")
     # tables: column order and cell position matter; equal tables built differently agree
     for cols in itertools.product([[0, 1], [1, 0], [0, 0]], repeat=2):
         t1 = Table({"x": list(cols[0]), "y": list(cols[1])})
